@@ -40,10 +40,9 @@ func (s *Server) Definition(ctx context.Context, params *protocol.DefinitionPara
 		return nil, nil
 	}
 
-	resolved := s.getWorkspaceResolved(params.TextDocument.URI)
-	currentPath := uriToPath(params.TextDocument.URI)
+	resolved, primaryPath := s.resolvedWithPrimaryPath(params.TextDocument.URI)
 
-	location := findDefinitionLocation(target, resolved, currentPath, journal)
+	location := findDefinitionLocation(target, resolved, primaryPath, journal)
 	if location == nil {
 		return nil, nil
 	}
@@ -70,7 +69,7 @@ func findDefinitionTarget(journal *ast.Journal, pos protocol.Position) *definiti
 		for j := range tx.Postings {
 			p := &tx.Postings[j]
 
-			accountRange := computeAccountRange(&p.Account)
+			accountRange := accountNameRange(&p.Account)
 			if positionInRange(pos, accountRange) {
 				return &definitionTarget{
 					context:     DefContextAccount,
@@ -79,19 +78,48 @@ func findDefinitionTarget(journal *ast.Journal, pos protocol.Position) *definiti
 				}
 			}
 
-			if p.Amount != nil && p.Amount.Commodity.Symbol != "" {
-				if positionInRange(pos, p.Amount.Commodity.Range) {
-					return &definitionTarget{
-						context:     DefContextCommodity,
-						name:        p.Amount.Commodity.Symbol,
-						symbolRange: astRangeToProtocol(p.Amount.Commodity.Range),
-					}
+			for _, c := range postingCommodities(p) {
+				if c.Symbol != "" && positionInRange(pos, c.Range) {
+					return commodityTarget(c.Symbol, c.Range)
 				}
 			}
 		}
 	}
 
+	for _, dir := range journal.Directives {
+		switch d := dir.(type) {
+		case ast.AccountDirective:
+			accountRange := accountNameRange(&d.Account)
+			if positionInRange(pos, accountRange) {
+				return &definitionTarget{
+					context:     DefContextAccount,
+					name:        d.Account.Name,
+					symbolRange: astRangeToProtocol(accountRange),
+				}
+			}
+		case ast.CommodityDirective:
+			if rng := directiveCommodityRange(&d.Commodity); d.Commodity.Symbol != "" && positionInRange(pos, rng) {
+				return commodityTarget(d.Commodity.Symbol, rng)
+			}
+		case ast.PriceDirective:
+			if rng := directiveCommodityRange(&d.Commodity); d.Commodity.Symbol != "" && positionInRange(pos, rng) {
+				return commodityTarget(d.Commodity.Symbol, rng)
+			}
+			if c := &d.Price.Commodity; c.Symbol != "" && positionInRange(pos, c.Range) {
+				return commodityTarget(c.Symbol, c.Range)
+			}
+		}
+	}
+
 	return nil
+}
+
+func commodityTarget(symbol string, rng ast.Range) *definitionTarget {
+	return &definitionTarget{
+		context:     DefContextCommodity,
+		name:        symbol,
+		symbolRange: astRangeToProtocol(rng),
+	}
 }
 
 func findDefinitionLocation(target *definitionTarget, resolved *include.ResolvedJournal, currentPath string, currentJournal *ast.Journal) *protocol.Location {
@@ -225,18 +253,21 @@ func findPayeeDefinitionResolved(payee string, resolved *include.ResolvedJournal
 	return earliest
 }
 
-func allJournalsWithPaths(resolved *include.ResolvedJournal, currentPath string, currentJournal *ast.Journal) map[string]*ast.Journal {
+// allJournalsWithPaths maps every file of the resolved journal to its syntax tree. primaryPath is
+// the path resolved.Primary was parsed from (see resolvedWithPrimaryPath); without a resolved
+// journal it names the current document.
+func allJournalsWithPaths(resolved *include.ResolvedJournal, primaryPath string, currentJournal *ast.Journal) map[string]*ast.Journal {
 	result := make(map[string]*ast.Journal)
 
 	if resolved != nil {
 		for path, journal := range resolved.Files {
 			result[path] = journal
 		}
-		if resolved.Primary != nil && currentPath != "" {
-			result[currentPath] = resolved.Primary
+		if resolved.Primary != nil && primaryPath != "" {
+			result[primaryPath] = resolved.Primary
 		}
-	} else if currentJournal != nil && currentPath != "" {
-		result[currentPath] = currentJournal
+	} else if currentJournal != nil && primaryPath != "" {
+		result[primaryPath] = currentJournal
 	}
 
 	return result
